@@ -104,6 +104,7 @@ def gen_knobs(rng, prop, profile):
         "chunk": rng.choice([64, 1000, 4096, 8192, 100_000]),
         "bufsize": wchoice(rng, [(70, 8192), (15, 4096), (15, 65536)]),
         "evict_on_startup": rng.random() < 0.15,
+        "val_style": wchoice(rng, [(60, "bool"), (20, "numpy"), (20, "int")]),
         "cache_dir": wchoice(rng, [(70, "cache"), (6, "products[v2]/cache"), (5, "my cache dir"), (5, "c*che?"),
                                    (5, "data.d/cachefile_x_cachefile"), (5, "d\u00e9p\u00f4t/cache"), (4, "a/b/c/cache")]),
         "big_requests": big,
